@@ -93,6 +93,19 @@ theorem step_count (s : Periodic) (t : Int) :
 
 theorem elapse_count_le (s : Periodic) (t : Int) : s.count ≤ (s.elapse t).count := Periodic.run_count_le _ s t
 
+/-- `Periodic.set_time_left` accepts a positive duration when the initial counter is positive or absent -/
+theorem setTimeLeft_defined (x : Periodic) (d : Int) (hl : 0 < d) (hi : ∀ c, x.initialCounter = some c → 0 < c) :
+    ∃ y, x.setTimeLeft d = .ok y := by
+  unfold Periodic.setTimeLeft
+  have : ¬ d ≤ 0 := by omega
+  simp only [this, if_false]
+  cases hc : x.initialCounter with
+  | none => exact ⟨_, rfl⟩
+  | some c =>
+    have := hi c hc
+    have h2 : ¬ c ≤ 0 := by omega
+    simp only [h2, if_false]; exact ⟨_, rfl⟩
+
 /-- once expired, a periodic stays expired -/
 theorem elapse_disabled (s : Periodic) (t : Int) (h : s.enabled = false) : (s.elapse t).enabled = false := by
   have : s.timeLeft ≤ 0 := by simpa [Periodic.enabled] using h
@@ -293,3 +306,169 @@ theorem keydown_stays_stopped (s : Keydown) (t : Int) (ht : 0 ≤ t) (h : s.runn
   omega
 
 end Simaple.Comp.Common
+
+/-! ### chunk independence: shared pieces -/
+namespace Simaple.Comp.Common
+open Simaple.Entity Simaple.Comp
+
+/-- equivalence of `cooldown + periodic` states: equal up to the dead interval counter of an expired periodic -/
+def PEquiv (x y : PeriodicAttack.S) : Prop := x.cooldown = y.cooldown ∧ Periodic.Equiv x.periodic y.periodic
+
+theorem PEquiv.refl (x : PeriodicAttack.S) : PEquiv x x := ⟨rfl, Periodic.Equiv.refl _⟩
+theorem PEquiv.symm {x y : PeriodicAttack.S} (h : PEquiv x y) : PEquiv y x := ⟨h.1.symm, h.2.symm⟩
+theorem PEquiv.trans {x y z : PeriodicAttack.S} (h1 : PEquiv x y) (h2 : PEquiv y z) : PEquiv x z :=
+  ⟨h1.1.trans h2.1, h1.2.trans h2.2⟩
+
+/-- the tick counts of a periodic add up over a split, as numbers of events -/
+theorem periodic_ticks_add (x : Periodic) (a b : Int) (hw : x.WF) (ha : 0 ≤ a) (hb : 0 ≤ b) :
+    (x.elapseCount (a + b)).toNat = (x.elapseCount a).toNat + ((x.elapse a).elapseCount b).toNat := by
+  have h := Periodic.elapseCount_add x a b hw ha hb
+  have h1 := Periodic.elapseCount_nonneg x a
+  have h2 := Periodic.elapseCount_nonneg (x.elapse a) b
+  omega
+
+/-- `set_time_left` gives a well-formed periodic -/
+theorem setTimeLeft_wf (x y : Periodic) (d : Int) (hI : 0 < x.interval) (h : x.setTimeLeft d = .ok y) : y.WF := by
+  unfold Periodic.setTimeLeft at h
+  split at h
+  · cases h
+  · split at h
+    · split at h
+      · cases h
+      · cases h
+        refine ⟨hI, ?_⟩
+        simp only []; omega
+    · cases h; exact ⟨hI, hI⟩
+
+/-- the damage ticks of `replicate (m + n)` split -/
+theorem dmg_replicate_add (m n : Nat) (d h : Rat) :
+    dmg (List.replicate (m + n) (.dealt d h)) = dmg (List.replicate m (.dealt d h)) ++ dmg (List.replicate n (.dealt d h)) := by
+  simp only [dmg_replicate_dealt, List.replicate_append_replicate]
+
+/-- the finishing blow of a "was running, is not any more" test, as a list of damage ticks -/
+def finishOf (was after : Bool) (d h : Rat) : List (Rat × Rat × String) := if !after && was then [(d, h, "")] else []
+
+/-- over a split the finishing blow is dealt in exactly one of the two chunks (`mid` = running in between;
+    a stopped thing stays stopped) -/
+theorem finishOf_split (was mid after : Bool) (d h : Rat) (h1 : was = false → mid = false) (h2 : mid = false → after = false) :
+    finishOf was after d h = finishOf was mid d h ++ finishOf mid after d h := by
+  cases was <;> cases mid <;> cases after <;> simp_all [finishOf]
+
+/-- the damage content of the key-down `elapse` -/
+theorem keydown_dmg (p : KeydownSkill.P) (t : Int) (s : KeydownSkill.S) :
+    dmg (KeydownSkill.elapse p t s).2 =
+      List.replicate (s.keydown.resolving t).2 (p.damage, p.hit, "") ++
+        finishOf s.keydown.running (s.keydown.resolving t).1.running p.finishDamage p.finishHit := by
+  unfold KeydownSkill.elapse finishOf
+  simp only []
+  by_cases h : (s.keydown.running && !(s.keydown.resolving t).1.running) = true
+  · rw [if_pos h]
+    have h' : (!(s.keydown.resolving t).1.running && s.keydown.running) = true := by
+      rw [Bool.and_comm]; exact h
+    rw [if_pos h']
+    simp only [dmg_append, dmg_replicate_dealt]
+    simp [dmg, dmgOf]
+  · rw [if_neg h]
+    have h' : ¬ (!(s.keydown.resolving t).1.running && s.keydown.running) = true := by
+      rw [Bool.and_comm]; exact h
+    rw [if_neg h']
+    simp only [dmg_append, dmg_replicate_dealt]
+    simp [dmg, dmgOf]
+
+/-- the damage content of the `PeriodicWithFinish` `elapse` -/
+theorem periodicWithFinish_dmg (p : PeriodicWithFinish.P) (t : Int) (s : PeriodicWithFinish.S) :
+    dmg (PeriodicWithFinish.elapse p t s).2 =
+      List.replicate (s.periodic.elapseCount t).toNat (p.periodicDamage, p.periodicHit, "") ++
+        finishOf s.periodic.enabled (s.periodic.elapse t).enabled p.finishDamage p.finishHit := by
+  unfold PeriodicWithFinish.elapse finishOf
+  simp only []
+  have e1 : (s.periodic.elapse' t).1 = s.periodic.elapse t := rfl
+  have e2 : (s.periodic.elapse' t).2 = s.periodic.elapseCount t := rfl
+  rw [e1, e2]
+  by_cases h : (!(s.periodic.elapse t).enabled && s.periodic.enabled) = true
+  · rw [if_pos h, if_pos h]
+    simp only [dmg_append, dmg_cons_elapsed, dmg_replicate_dealt]
+    simp [dmg, dmgOf]
+  · rw [if_neg h, if_neg h]
+    simp only [dmg_cons_elapsed, dmg_replicate_dealt, List.append_nil]
+
+end Simaple.Comp.Common
+
+namespace Simaple.Comp.Common
+open Simaple.Entity Simaple.Comp
+
+/-- `elapse_periodic_damage_trait` (cooldown + periodic, ticks of one damage kind) over a split -/
+def periodicTraitElapse (d h : Rat) (t : Int) (x : PeriodicAttack.S) : PeriodicAttack.S × List REv :=
+  ({ cooldown := x.cooldown.elapse t, periodic := (x.periodic.elapse' t).1 },
+   .elapsed t :: List.replicate (x.periodic.elapse' t).2.toNat (.dealt d h))
+
+theorem periodicTrait_split (d h : Rat) (s : PeriodicAttack.S) (a b : Int) (hw : s.periodic.WF) (ha : 0 ≤ a) (hb : 0 ≤ b) :
+    PEquiv (periodicTraitElapse d h b (periodicTraitElapse d h a s).1).1 (periodicTraitElapse d h (a + b) s).1 ∧
+    dmg (periodicTraitElapse d h (a + b) s).2 =
+      dmg (periodicTraitElapse d h a s).2 ++ dmg (periodicTraitElapse d h b (periodicTraitElapse d h a s).1).2 := by
+  refine ⟨⟨?_, ?_⟩, ?_⟩
+  · simp only [periodicTraitElapse, Cooldown.elapse_add]
+  · exact Periodic.elapse_add' s.periodic a b hw ha hb
+  · simp only [periodicTraitElapse, Periodic.elapse', dmg_cons_elapsed, dmg_replicate_dealt,
+      List.replicate_append_replicate]
+    rw [periodic_ticks_add s.periodic a b hw ha hb]
+
+/-- equivalent states answer the same events and stay equivalent -/
+theorem periodicTrait_congr (d h : Rat) (t : Int) (x y : PeriodicAttack.S) (hxy : PEquiv x y) :
+    PEquiv (periodicTraitElapse d h t x).1 (periodicTraitElapse d h t y).1 ∧
+    (periodicTraitElapse d h t x).2 = (periodicTraitElapse d h t y).2 := by
+  refine ⟨⟨?_, ?_⟩, ?_⟩
+  · simp only [periodicTraitElapse, hxy.1]
+  · exact Periodic.elapse_equiv _ _ t hxy.2
+  · simp only [periodicTraitElapse, Periodic.elapse', hxy.2.elapseCount t]
+
+end Simaple.Comp.Common
+
+namespace Simaple.Comp.HitLimited
+open Simaple.Entity Simaple.Comp Simaple.Comp.Common
+
+/-- chunk independence of the hit-limited `elapse` on reachable states -/
+theorem elapse_add (p : P) (s : S) (a b : Int) (hi : Inv p s) (ha : 0 ≤ a) (hb : 0 ≤ b) :
+    (elapse p b (elapse p a s).1).1.cooldown = (elapse p (a + b) s).1.cooldown ∧
+    Periodic.Equiv (elapse p b (elapse p a s).1).1.periodic (elapse p (a + b) s).1.periodic ∧
+    dmg (elapse p (a + b) s).2 = dmg (elapse p a s).2 ++ dmg (elapse p b (elapse p a s).1).2 := by
+  have hw := hi.1
+  have hi1 := elapse_inv p a s hi
+  obtain ⟨per1, h1, e1, w1, c1⟩ := elapse_char p a s hi
+  rw [e1] at hi1
+  simp only [] at hi1
+  obtain ⟨per2, h2, e2, w2, c2⟩ := elapse_char p b _ hi1
+  obtain ⟨per3, h3, e3, w3, c3⟩ := elapse_char p (a + b) s hi
+  simp only [] at c2
+  rw [e1]; simp only []
+  rw [e2, e3]
+  simp only [dmg_cons_elapsed, dmg_replicate_dealt, List.replicate_append_replicate, Cooldown.elapse_add, true_and]
+  have hadd := Periodic.elapse_add' s.periodic a b hw ha hb
+  have hcnt := hadd.count
+  have mono1 := elapse_count_le s.periodic a
+  have mono2 := elapse_count_le (s.periodic.elapse a) b
+  have hconst := elapse_const s.periodic a
+  rcases c1 with ⟨l1, q1, n1⟩ | ⟨l1, q1, n1⟩
+  · subst q1
+    rcases c2 with ⟨l2, q2, n2⟩ | ⟨l2, q2, n2⟩ <;> rcases c3 with ⟨l3, q3, n3⟩ | ⟨l3, q3, n3⟩
+    · subst q2 q3
+      refine ⟨hadd, ?_⟩
+      congr 1; omega
+    · omega
+    · omega
+    · refine ⟨q2.trans ((dead_equiv _ _ _ hconst.1 hconst.2).trans q3.symm), ?_⟩
+      congr 1; omega
+  · have htl : per1.timeLeft = 0 := q1.timeLeft
+    have hc1 : per1.count = p.maxCount := q1.count
+    have hex : per1.elapse b = per1 := Periodic.elapse_expired per1 b (by omega)
+    rw [hex] at c2
+    have hI : per1.interval = s.periodic.interval := q1.1
+    have hN : per1.initialCounter = s.periodic.initialCounter := q1.2.1
+    rcases c2 with ⟨l2, q2, n2⟩ | ⟨l2, q2, n2⟩ <;> rcases c3 with ⟨l3, q3, n3⟩ | ⟨l3, q3, n3⟩
+    · omega
+    · omega
+    · omega
+    · refine ⟨q2.trans ((dead_equiv _ _ _ hI hN).trans q3.symm), ?_⟩
+      congr 1; omega
+
+end Simaple.Comp.HitLimited
